@@ -1271,6 +1271,44 @@ func runR103(c *Ctx) {
 		c.undecided("config/eval.SetFunc|cases", p.pos(fn.Pos()), "no function signature is accepted")
 		return
 	}
+	// clause (b): SetFunc accepts exactly the function signatures the columns can execute: the ones asserted on
+	// the function argument in the column packages' implementations of Column.Apply1 / Apply2
+	execSigs := map[string]string{}
+	for _, cf := range p.Funcs {
+		if cf.Pkg == nil || cf.Signature.Recv() == nil || cf.Name() != "Apply1" && cf.Name() != "Apply2" || !strings.HasPrefix(cf.Pkg.Pkg.Path(), rel("internal/")) {
+			continue
+		}
+		eachInstr(cf, func(in ssa.Instruction) {
+			if ta, ok := in.(*ssa.TypeAssert); ok && ta.CommaOk {
+				if sg, ok := ta.AssertedType.(*types.Signature); ok {
+					execSigs[types.TypeString(sg, shortQual)] = fname(cf)
+				}
+			}
+		})
+	}
+	if len(execSigs) == 0 {
+		c.undecided("config/eval.SetFunc|executable signatures", p.pos(fn.Pos()), "no Apply1/Apply2 implementation with asserted function signatures found")
+	} else {
+		var names []string
+		for k := range execSigs {
+			names = append(names, k)
+		}
+		sort.Strings(names)
+		for _, k := range names {
+			key := "config/eval.SetFunc|registers " + k
+			if seenSig[k] {
+				c.ok(key, p.pos(fn.Pos()), "executable by "+execSigs[k]+" and accepted by SetFunc")
+			} else {
+				c.bad(key, p.pos(fn.Pos()), fmt.Sprintf("%s executes functions of type %s but SetFunc does not accept that type: such a user function can never be registered in an evaluation context and used in Eval", execSigs[k], k))
+			}
+		}
+		for _, sg := range sigs {
+			k := types.TypeString(sg, shortQual)
+			if _, ok := execSigs[k]; !ok {
+				c.bad("config/eval.SetFunc|executes "+k, p.pos(fn.Pos()), fmt.Sprintf("SetFunc accepts functions of type %s but no column's Apply1/Apply2 executes that type: Eval fails when the function is applied", k))
+			}
+		}
+	}
 	eval := func(world *types.Signature) (field string, typ int64, stored bool, why string) {
 		pe := &pathExec{fn: fn, maxStep: 2000}
 		atom := func(x ssa.Value) (bool, bool) {
